@@ -21,3 +21,4 @@ package rt
 //@   ensures base(result) == base(buf) ==> same(result, buf)
 //@   ensures txt(result) == txt(buf)
 //@   ensures forall j int :: (0 <= j && j < len(buf)) ==> result[j] == old(buf[j])
+//@   ensures forall lo int, n int :: { subtxt(result, lo, n) } (0 <= lo && 0 <= n && lo + n <= len(buf)) ==> subtxt(result, lo, n) == old(subtxt(buf, lo, n))
